@@ -14,17 +14,19 @@ _mod = importlib.util.module_from_spec(_spec)
 _spec.loader.exec_module(_mod)
 _program_src = _mod.program_src
 IMPORTS = "From JV Require Import Lib.Base Lib.C12Syntax Model.C12Cli Spec.C12CliSpec Corr.C12Judge."
-RULE = ("seeded random programs: a function, a class with 0-3 methods (instance, static or class methods), a list of 2-4 functions/classes, or a nested "
+RULE = ("seeded random programs: a function (15% `async def`), a class with 0-3 methods (instance, static, class or coroutine methods; a method "
+        "without parameters may be a public @property), a list of 1-4 functions/classes (35% of the lists are NOT passed: auto_cli(args=...) is "
+        "called from the module that defines exactly these components), or a nested "
         "dict (depth <=3, optional _help entries) of them; signatures of 0-6 parameters over int/str/bool/List[int]/"
         "Optional[int]/Optional[str]/Optional[List[int]]/the dataclass Point/Optional[Point] (values given whole: one JSON argv "
         "value, --k.x/--k.y, or a config section), with/without default (incl. `= None` on a non-Optional type), positional-or-keyword "
-        "and keyword-only, private (_x) names, names that are attributes of jsonargparse.Namespace (items, keys, values, get, "
+        "keyword-only and (5% of the signatures) positional-only (`/`), private (_x) names, names that are attributes of jsonargparse.Namespace (items, keys, values, get, "
         "pop, update, clone, as_dict), str defaults that a YAML reader would not leave a string (null, ~, 5, true, '', 1e3), "
         "names shared between constructor and methods, and (rarely) the names config/subcommand/help/print_config "
         "(subcommand also as constructor parameter of a class without methods); as_positional True and False. Per program 8 command lines: values given "
         "by option, positionally, by --config (inline JSON or file, at the level itself or as a section of an enclosing "
-        "level, the section of one subcommand also split over two --config options), the empty string as a str value, repeated (last wins) or omitted, in shuffled order, plus ~20% invalid lines (unknown option/key, wrong "
-        "type, missing required, extra word, unknown/missing subcommand, --config where the level has none). "
+        "level, the section of one subcommand also split over two --config options), the empty string and the texts null / ~ / Null / NULL as values of a parameter declared str (not Optional), null as a wrong value for non-Optional int/bool/List, repeated (last wins) or omitted, in shuffled order, plus ~20% invalid lines (unknown option/key, wrong "
+        "type, missing required, extra word, unknown/missing subcommand, --config where the level has none, a value for a private parameter that has a default). "
         "History: all programs of a runner process are imported in sequence under the same module name (same module.qualname "
         "for different classes / functions). Non-trivial = the call happened with at least one parameter bound to a given value; distinct = distinct "
         "(program, command line).")
@@ -45,9 +47,18 @@ ASSUMPTIONS = [
     "Python 3.12.1 an abbreviation that is ambiguous in the PARENT parser even breaks subcommand options)",
     "argparse takes an UNKNOWN option whose text contains a space (`--k=[1, 2]`) for a positional value: such words are not "
     "generated as invalid options (tokenisation is argparse's business)",
+    "null is given to a non-Optional parameter only as a word on argv (rejected for int/bool/List, the string for str); a JSON "
+    "null inside a --config is 'not set' for jsonargparse and is handed to the callee as None without validation against "
+    "the declared type (observed: def f(a: int = 0), --config={\"a\": null} -> f(a=None)); what a value means for a type "
+    "is C02/C05's subject and such documents are not generated here",
     "the only dataclass is Point(x: int = 0, y: int = 0); a dataclass value is always given whole (both fields: as one JSON "
     "argv value, as --k.x/--k.y side by side, or as a config section), because partial assignments merge field-wise; a "
     "wrong-typed scalar for a dataclass group is generated on argv only (inside a --config it is validated lazily, C02)",
+    "coroutine functions / methods and public properties are, like static and class methods, below the model: it starts from "
+    "the subcommand's signature (a property = a subcommand without parameters); that the coroutine is run and the property "
+    "read once on the one instance is observed by the generated callee's own record",
+    "components not passed (auto_cli() from the defining module) are the list of the module's functions / classes in "
+    "definition order for the model; the frame / module lookup is exercised, not modelled",
     "instance, static and class methods are the same subcommand for the model (it starts from the subcommand's signature); "
     "which receiver the callee gets is observed by the generated callee itself",
     "the subcommand is always chosen on the command line; a level whose subcommand is named by the config (`subcommand` key or "
@@ -58,7 +69,7 @@ ASSUMPTIONS = [
 ]
 EXHAUSTIVE = {"quick": False, "thorough": False}
 # classes 1-5, 7 belonged to the three findings repaired in /repo (5bbebb1, 2f69862, 4bb4764)
-FINDING_CLASSES = {6: "nullish-str-default"}
+FINDING_CLASSES = {6: "nullish-str-default", 9: "positional-only-param"}
 
 PARAM_NAMES = ["alpha", "beta", "gamma", "delta", "eps", "zeta", "theta", "iota", "kappa", "lam", "mu", "nu", "xi",
                "rho", "sigma", "tau", "ups", "phi", "chi", "psi", "omega", "_hid", "_priv",
@@ -85,11 +96,19 @@ def base_ty(t):
     return t[1] if isinstance(t, list) else t
 
 
-def gen_value(rng, t, allow_none=True):
+NULL_WORDS = ["null", "~", "Null", "NULL"]
+
+
+def gen_value(rng, t, allow_none=True, given=False):
+    opt = isinstance(t, list)
     if isinstance(t, list):
         if allow_none and rng.random() < 0.3:
             return None
         t = t[1]
+    if t == "str" and given and not opt and rng.random() < 0.15:
+        # for a parameter DECLARED str (not Optional) the text null / ~ is a string like any other, whatever its default
+        # (for Optional[str] the same text means None: what a text means for a type is C02/C05's business)
+        return rng.choice(NULL_WORDS)
     if t == "int":
         return rng.randint(-5, 20)
     if t == "str":
@@ -107,11 +126,16 @@ def gen_sig(rng, reserved_ok, maxn=6, pool=None):
     names = rng.sample(pool or PARAM_NAMES, n)
     if reserved_ok and n and rng.random() < 0.04:
         names[rng.randrange(n)] = rng.choice(["subcommand"] * 5 + ["config"] * 4 + ["help", "print_config"])
+    hidden = None
+    if n and rng.random() < 0.12 and not {"_hid", "_priv"} & set(names):
+        # a private parameter that (mostly) has a default: it is NOT offered, a value given for it must be rejected
+        hidden = rng.randrange(n)
+        names[hidden] = rng.choice(["_hid", "_priv"])
     n_pk = rng.randint(0, n)
     params = []
     for i, nm in enumerate(names):
         t = rng.choice(TYPES)
-        has_def = rng.random() < 0.5
+        has_def = rng.random() < (0.8 if i == hidden else 0.5)
         d = None
         if has_def:
             if not isinstance(t, list) and rng.random() < 0.15:
@@ -125,11 +149,19 @@ def gen_sig(rng, reserved_ok, maxn=6, pool=None):
     pk = [p for p in params if p["kind"] == "pk"]
     ko = [p for p in params if p["kind"] == "ko"]
     pk.sort(key=lambda p: p["d"] is not None)
+    if pk and rng.random() < 0.05:
+        # `def f(a, b, /, c)`: the first parameters are positional-only (open finding positional-only-param: every value
+        # is passed by keyword, so the call fails as soon as one of them is offered on the command line)
+        for p in pk[: rng.randint(1, len(pk))]:
+            p["kind"] = "po"
     return pk + ko
 
 
 def gen_fn(rng, names):
-    return {"k": "fn", "name": names.pop(), "sig": gen_sig(rng, True)}
+    f = {"k": "fn", "name": names.pop(), "sig": gen_sig(rng, True)}
+    if rng.random() < 0.15:
+        f["async"] = True          # `async def`: auto_cli runs the coroutine (asyncio.run) and returns its value
+    return f
 
 
 def gen_cls(rng, names, mnames=None):
@@ -145,8 +177,15 @@ def gen_cls(rng, names, mnames=None):
         pool = list(dict.fromkeys(pool))
         s = gen_sig(rng, True, maxn=4, pool=pool)
         meths.append([m, s])
-    # a public method may also be a @staticmethod or a @classmethod (same signature on the command line)
-    mkinds = {m: rng.choice(["static", "class"]) for m, _ in meths if rng.random() < 0.4}
+    # a public method may also be a @staticmethod, a @classmethod or a coroutine method (same signature on the
+    # command line); a public @property is a subcommand without parameters whose value is returned
+    for ms in meths:
+        if rng.random() < 0.12:
+            ms[1] = []
+    mkinds = {m: rng.choice(["static", "class", "async"]) for m, _ in meths if rng.random() < 0.45}
+    for m, s in meths:
+        if not s and rng.random() < 0.6:
+            mkinds[m] = "prop"
     return {"k": "cls", "name": names.pop(), "init": init, "meths": meths, "mkinds": mkinds}
 
 
@@ -183,7 +222,11 @@ def gen_components(rng):
     if r < 0.55:
         return {"form": "one", "c": gen_cls(rng, cls_names)}
     if r < 0.72:
-        return {"form": "list", "cs": [gen_leaf(rng, fn_names, cls_names) for _ in range(rng.choice([1, 2, 2, 3, 4]))]}
+        cs = {"form": "list", "cs": [gen_leaf(rng, fn_names, cls_names) for _ in range(rng.choice([1, 2, 2, 3, 4]))]}
+        if rng.random() < 0.35:
+            # the list is not passed: auto_cli(args=...) is called from the module that defines exactly these components
+            cs["implicit"] = True
+        return cs
     return {"form": "dict", "kids": gen_grp_kids(rng, fn_names, cls_names, 0)}
 
 
@@ -227,14 +270,19 @@ def top_level(comps):
     return {"sig": [], "subs": {k: level_of(kid) for k, kid in comps["kids"] if k != "_help"}}
 
 
+NULL = {"null": True}      # marker: the wrong value is null (written None into the token once chosen)
+
+
 def bad_value(rng, t):
+    # null is a wrong value for every type that is not Optional (whatever the parameter's default is)
+    nul = [] if isinstance(t, list) else [NULL]
     t = base_ty(t)
     if t == "int":
-        return rng.choice(["abc", [1], True])
+        return rng.choice(["abc", [1], True] + nul)
     if t == "bool":
-        return rng.choice(["abc", 7, [1]])
+        return rng.choice(["abc", 7, [1]] + nul)
     if t == "list":
-        return rng.choice(["abc", 3])
+        return rng.choice(["abc", 3] + nul)
     if t == "data":
         return rng.choice(["abc", 3])
     return None
@@ -246,7 +294,7 @@ def gen_line(rng, comps, as_pos, invalid):
     toks = []
     handed = []          # [(key, value)] a parent passes down for the next level through a config section
     mutation = rng.choice(["unknown_opt", "bad_value", "missing_required", "extra_word", "bad_sub", "no_sub",
-                           "unknown_key", "cfg_nowhere", "opt_for_positional"]) if invalid else None
+                           "unknown_key", "cfg_nowhere", "opt_for_positional", "private_given", "private_given"]) if invalid else None
     mutated = False
     depth = 0
     while True:
@@ -263,14 +311,14 @@ def gen_line(rng, comps, as_pos, invalid):
             give_pos = rng.randint(0, len(positional))
         for i, p in enumerate(positional):
             if i < give_pos:
-                pos_toks.append(["pos", gen_value(rng, p_ty(p), allow_none=False)])
+                pos_toks.append(["pos", gen_value(rng, p_ty(p), allow_none=False, given=True)])
                 if rng.random() < 0.15:
-                    cfg_doc.append([p["n"], {"leaf": gen_value(rng, p_ty(p), allow_none=False)}])
+                    cfg_doc.append([p["n"], {"leaf": gen_value(rng, p_ty(p), allow_none=False, given=True)}])
             else:
                 if mutation == "missing_required" and not mutated:
                     mutated = True
                     continue
-                cfg_doc.append([p["n"], {"leaf": gen_value(rng, p_ty(p), allow_none=False)}])
+                cfg_doc.append([p["n"], {"leaf": gen_value(rng, p_ty(p), allow_none=False, given=True)}])
         for p in options:
             req = p_required(p)
             r = rng.random()
@@ -279,24 +327,32 @@ def gen_line(rng, comps, as_pos, invalid):
                 continue
             if req or r < 0.55:
                 how = rng.random()
-                v = gen_value(rng, p_ty(p), allow_none=not req)
+                v = gen_value(rng, p_ty(p), allow_none=not req, given=True)
                 if how < 0.6:
                     level_toks.append(["opt", p["n"], v])
                     if rng.random() < 0.2:
-                        level_toks.append(["opt", p["n"], gen_value(rng, p_ty(p), allow_none=not req)])
+                        level_toks.append(["opt", p["n"], gen_value(rng, p_ty(p), allow_none=not req, given=True)])
                 else:
                     cfg_doc.append([p["n"], {"leaf": v}])
                     if rng.random() < 0.25:
-                        level_toks.append(["opt", p["n"], gen_value(rng, p_ty(p), allow_none=not req)])
+                        level_toks.append(["opt", p["n"], gen_value(rng, p_ty(p), allow_none=not req, given=True)])
         if mutation == "bad_value" and not mutated:
             cands = [p for p in sig if bad_value(rng, p_ty(p)) is not None]
             if cands:
                 p = rng.choice(cands)
                 mutated = True
                 bv = bad_value(rng, p_ty(p))
-                if p in positional and give_pos > positional.index(p):
+                isnull = bv is NULL
+                on_argv = p in positional and give_pos > positional.index(p)
+                while isnull and p in positional and not on_argv:
+                    # null as a wrong value only on argv: inside a --config a JSON null is "not set" and is not
+                    # validated against the type (what a value means for a type: C02), see ASSUMPTIONS
+                    bv = bad_value(rng, p_ty(p))
+                    isnull = bv is NULL
+                bv = None if isnull else bv
+                if on_argv:
                     pos_toks[positional.index(p)] = ["pos", bv]
-                elif p in positional or (rng.random() < 0.4 and base_ty(p_ty(p)) != "data"):
+                elif p in positional or (not isnull and rng.random() < 0.4 and base_ty(p_ty(p)) != "data"):
                     # (not for a dataclass group: a scalar for the group inside a --config is only validated at the
                     # end of parsing, so a later valid assignment rescues the line - C02's business, see ASSUMPTIONS)
                     cfg_doc.append([p["n"], {"leaf": bv}])
@@ -310,7 +366,17 @@ def gen_line(rng, comps, as_pos, invalid):
         if mutation == "opt_for_positional" and not mutated and [q for q in positional if base_ty(p_ty(q)) != "list"]:
             mutated = True
             p = rng.choice([q for q in positional if base_ty(p_ty(q)) != "list"])
-            level_toks.append(["opt", p["n"], gen_value(rng, p_ty(p), allow_none=False)])
+            level_toks.append(["opt", p["n"], gen_value(rng, p_ty(p), allow_none=False, given=True)])
+        not_offered = [p for p in lv["sig"] if not p_offered(p)]
+        if mutation == "private_given" and not mutated and not_offered:
+            # a value for a private parameter that has a default (by option or by config key): no such option / key
+            mutated = True
+            p = rng.choice(not_offered)
+            v = gen_value(rng, p_ty(p), allow_none=False)
+            if rng.random() < 0.6:
+                level_toks.append(["opt", p["n"], v])
+            else:
+                cfg_doc.append([p["n"], {"leaf": v}])
         if mutation == "unknown_key" and not mutated and rng.random() < 0.6:
             mutated = True
             cfg_doc.append([rng.choice(["zzz", "nope"]), {"leaf": 1}])
@@ -488,6 +554,42 @@ def fixed_cases():
     out.append({"as_pos": True, "components": {"form": "one", "c": sm}, "toks": [["pos", "show"], ["pos", 5], ["opt", "delta", True]]})
     out.append({"as_pos": True, "components": {"form": "list", "cs": [sm, h]}, "toks": [["cfg", [["Pipe", {"sec": [["show", {"sec": [["beta", {"leaf": 3}]]}]]}]]], ["pos", "Pipe"], ["pos", "show"]]})
     out.append({"as_pos": True, "components": {"form": "dict", "kids": [["grp", {"k": "grp", "kids": [["Pipe", sm]]}]]}, "toks": [["pos", "grp"], ["pos", "Pipe"], ["pos", "walk"], ["pos", 1]]})
+    # coroutine function / coroutine method / property as the selected component
+    af = {"k": "fn", "name": "sync", "sig": [I("alpha"), I("beta", "q", "str", "ko")], "async": True}
+    ac = {"k": "cls", "name": "Node", "init": [I("alpha", 1)], "mkinds": {"walk": "async", "show": "prop"},
+          "meths": [["show", []], ["walk", [I("beta"), I("gamma", 2)]]]}
+    out.append({"as_pos": True, "components": {"form": "one", "c": af}, "toks": [["pos", 3], ["opt", "beta", "foo"]]})
+    out.append({"as_pos": True, "components": {"form": "list", "cs": [af, h]}, "toks": [["cfg", [["sync", {"sec": [["alpha", {"leaf": 4}]]}]]], ["pos", "sync"]]})
+    out.append({"as_pos": True, "components": {"form": "one", "c": ac}, "toks": [["opt", "alpha", 5], ["pos", "walk"], ["pos", 7]]})
+    out.append({"as_pos": True, "components": {"form": "one", "c": ac}, "toks": [["opt", "alpha", 5], ["pos", "show"]]})
+    out.append({"as_pos": True, "components": {"form": "one", "c": ac}, "toks": [["pos", "show"], ["cfg", []]]})
+    out.append({"as_pos": True, "components": {"form": "dict", "kids": [["grp", {"k": "grp", "kids": [["Node", ac]]}]]}, "toks": [["pos", "grp"], ["pos", "Node"], ["pos", "show"]]})
+    # components not passed: auto_cli() takes the functions / classes defined in the calling module (none: refused)
+    out.append({"as_pos": True, "components": {"form": "list", "cs": [g, ac], "implicit": True}, "toks": [["pos", "fit"], ["opt", "kappa", 4]]})
+    out.append({"as_pos": True, "components": {"form": "list", "cs": [g, ac], "implicit": True}, "toks": [["pos", "Node"], ["pos", "walk"], ["pos", 1]]})
+    out.append({"as_pos": True, "components": {"form": "list", "cs": [b2], "implicit": True}, "toks": [["opt", "gamma", 4]]})
+    out.append({"as_pos": True, "components": {"form": "list", "cs": [], "implicit": True}, "toks": []})
+    # falsy (not None) defaults: the declared type stays what it is - null / ~ is a string for str, a wrong value for int / bool / List
+    fz = {"k": "fn", "name": "send", "sig": [I("alpha", "", "str"), I("beta", 0), I("gamma", False, "bool", "ko"), I("delta", [], "list", "ko"), I("eps", "x", "str", "ko")]}
+    fzc = {"k": "cls", "name": "Job", "init": [I("alpha", "", "str")], "meths": [["apply", [I("beta", "", "str"), I("gamma", 0)]]]}
+    out.append({"as_pos": True, "components": {"form": "one", "c": fz}, "toks": [["opt", "alpha", "null"], ["opt", "eps", "null"]]})
+    out.append({"as_pos": True, "components": {"form": "one", "c": fz}, "toks": [["opt", "alpha", "~"]], "opt_two_tokens": True})
+    out.append({"as_pos": True, "components": {"form": "one", "c": fz}, "toks": [["cfg", [["alpha", {"leaf": "null"}]]]]})
+    out.append({"as_pos": True, "components": {"form": "one", "c": fz}, "toks": [["opt", "beta", None]]})
+    out.append({"as_pos": True, "components": {"form": "one", "c": fz}, "toks": [["opt", "gamma", None]]})
+    out.append({"as_pos": True, "components": {"form": "one", "c": fz}, "toks": [["opt", "delta", None]]})
+    out.append({"as_pos": True, "components": {"form": "list", "cs": [fzc, h]}, "toks": [["pos", "Job"], ["opt", "alpha", "NULL"], ["pos", "apply"], ["opt", "beta", "null"]]})
+    out.append({"as_pos": True, "components": {"form": "one", "c": fzc}, "toks": [["cfg", [["apply", {"sec": [["beta", {"leaf": "Null"}]]}]]], ["pos", "apply"]]})
+    # positional-only parameters (open finding positional-only-param); one left to its default is harmless
+    po1 = {"k": "fn", "name": "run", "sig": [I("alpha", None, "int", "po")]}
+    po2 = {"k": "fn", "name": "run", "sig": [I("_hid", 4, "int", "po"), I("alpha", None, "int", "ko")]}
+    po3 = {"k": "cls", "name": "Tool", "init": [I("alpha", 1, "int", "po")], "meths": [["train", [I("beta", None, "int", "po"), I("gamma", 2)]]]}
+    out.append({"as_pos": True, "components": {"form": "one", "c": po1}, "toks": [["pos", 3]]})
+    out.append({"as_pos": False, "components": {"form": "one", "c": po1}, "toks": [["cfg", [["alpha", {"leaf": 3}]]]]})
+    out.append({"as_pos": True, "components": {"form": "one", "c": po1}, "toks": []})
+    out.append({"as_pos": True, "components": {"form": "one", "c": po2}, "toks": [["pos", 3]]})
+    out.append({"as_pos": True, "components": {"form": "one", "c": po3}, "toks": [["pos", "train"], ["pos", 5]]})
+    out.append({"as_pos": True, "components": {"form": "list", "cs": [po3, h]}, "toks": [["pos", "Tool"], ["opt", "alpha", 2], ["pos", "train"], ["pos", 5], ["opt", "gamma", 1]]})
     for o in out:
         o.setdefault("cfg_via", "string")
     return out
@@ -548,7 +650,7 @@ def g_val(v, pre):
 
 def g_param(p):
     return "{| p_name := %s; p_kind := %s; p_ty := %s; p_default := %s |}" % (
-        g_str(p["n"]), "PosOrKw" if p["kind"] == "pk" else "KwOnly", g_ty(p["ty"]),
+        g_str(p["n"]), {"pk": "PosOrKw", "ko": "KwOnly", "po": "PosOnly"}[p["kind"]], g_ty(p["ty"]),
         "None" if p["d"] is None else "(Some %s)" % g_val(p["d"]["v"], "V"))
 
 
@@ -719,7 +821,10 @@ META = {
                   "--config documents with nested sections, repeated and shuffled), every text->value conversion function (so also for dataclass-typed and Optional[dataclass] parameters, whose values are "
                   "built by instantiate_classes: TData / VData / RData are constructors of the type, value and raw grammars inside the "
                   "induction, with the field defaults as the type's own default) and both "
-                  "values of as_positional: if no Optional parameter has a str default that YAML reads as null, then the "
+                  "values of as_positional, signatures over the three parameter kinds positional-or-keyword / keyword-only / positional-only "
+                  "(the model's call binding py_call is kind-aware: a keyword reaching a positional-only parameter is a TypeError): if no "
+                  "Optional parameter has a str default that YAML reads as null and no parameter is positional-only (in_guard = the "
+                  "conjunction of the two open finding classes, C12_guard_is_neither_finding_class), then the "
                   "code-shaped model of the PRESENT auto_cli (after the repairs 5bbebb1/2f69862/4bb4764; the three guards of the "
                   "earlier rounds are gone) (argparse table of "
                   "_add_signature_parameter, per-level namespaces, nested Namespace, dotted-key dispatch loop, _run_component with "
@@ -733,8 +838,10 @@ META = {
                   "C12_given_else_default, C12_selected_only (dict/list: the first bare word selects, the log is that entry's), "
                   "C12_function_called_once, C12_class_split (model level: constructor and method each get exactly their own "
                   "parameters, method's return value returned), C12_required_iff_no_default and C12_optional_defaults_none (on the "
-                  "code-shaped arg_of_param). C12_nullish_default_refuted exhibits the "
-                  "input on which the present code violates the property (the guard is needed); C12_reserved_names_refuted, "
+                  "code-shaped arg_of_param). C12_nullish_default_refuted and C12_positional_only_refuted (def run(alpha: int, /), `3`: model "
+                  "and real code crash with TypeError, the spec demands run(3)) exhibit the "
+                  "inputs on which the present code violates the property (both guards are needed; C12_positional_only_default_harmless: a "
+                  "positional-only parameter that is not offered does no harm); C12_reserved_names_refuted, "
                   "C12_reserved_config_refuted, C12_private_optional_refuted, C12_class_subcommand_refuted are regression witnesses about the pre-repair model "
                   "(auto_cli true) and C12_round1_inputs_repaired shows the same inputs on the present model; "
                   "C12_guards_satisfiable is a non-trivial input inside the guards. The model is tied to the real auto_cli by "
@@ -745,14 +852,17 @@ META = {
                   "INCLUDING the instantiation of dataclass values by instantiate_classes (a parameter `conv` of every theorem; the "
                   "run uses canonical texts of int/str/bool/List[int]/Optional and whole values of the one dataclass Point, whose "
                   "instances the generated callee reports field by field); CPython's keyword "
-                  "call binding (modelled as bind_params, trusted); keyword-only vs positional-or-keyword kind (irrelevant to a "
-                  "**kwargs call, exercised); --config given as a file (exercised). The model answers EUnmodelled (nothing claimed, "
+                  "call binding (modelled as py_call / bind_params incl. the positional-only rule, trusted); keyword-only vs "
+                  "positional-or-keyword (irrelevant to a **kwargs call, exercised); *args / **kwargs parameters (skipped by the code, not in the grammar); "
+                  "coroutine functions/methods, public properties, static/class methods and components taken from the calling module "
+                  "(all exercised by generated programs, below the model: it starts from the subcommand's signature); --config given as a file (exercised); "
+                  "a JSON null inside a --config for a non-Optional parameter (handed to the callee unvalidated, C02's subject, not generated). The model answers EUnmodelled (nothing claimed, "
                   "never generated) for: constructor parameter named `subcommand` of a class WITH methods or named like a method, subcommand named `config`, "
                   "--config sections for another subcommand than the chosen one, subcommand chosen by the config (C17), duplicate "
-                  "or empty names, a parameter named print_shtab. async components, set_defaults, fail_untyped=False, properties "
-                  "as subcommands, dataclass/subclass-typed parameters are outside the model. Findings reserved-param-names, "
-                  "private-optional-without-default and class-subcommand-param are repaired in /repo. Open finding (reproduced "
-                  "bug-for-bug by the model): nullish-str-default (no safe fix).",
+                  "or empty names, a parameter named print_shtab. set_defaults, fail_untyped=False / untyped parameters, return_parser, "
+                  "subclass-typed parameters, linked arguments are outside the property and the model. Findings reserved-param-names, "
+                  "private-optional-without-default and class-subcommand-param are repaired in /repo. Open findings (reproduced "
+                  "bug-for-bug by the model): nullish-str-default (no safe fix), positional-only-param (fixes/C12-positional-only-param.patch).",
     "technique": "Rocq proof by simulation/refinement (code-shaped namespace fold vs. last-assignment reference semantics, induction over "
                  "token lists and frame chains, all component trees) + generated-program correspondence (real modules, real auto_cli) "
                  "judged inside Coq",
